@@ -98,6 +98,8 @@ func NewParser(grammar *Grammar) (*Parser, error) {
 
 // Parse attempts to run the parser for the given input.
 func (p *Parser) Parse(llk *LLk, st *semantic.Statement) error {
+	// Release the lexer goroutine also when the parse stops early.
+	defer llk.drain()
 	b, err := p.consume(llk, st, "START")
 	if err != nil {
 		return err
